@@ -10,7 +10,7 @@ M_P2R = "pytestarch.utils.partial_match_to_regex_converter"
 vals.declare_obj("RuleConfiguration", dict(
     modules_to_check="Opt[Bag[Filter]]", modules_to_check_against="Opt[Bag[Filter]]", should="Bool", should_only="Bool",
     should_not="Bool", except_present="Bool", import_="Opt[Bool]", rule_object_anything="Bool"))
-vals.declare_obj("Rule", dict(_rule_matcher_class="Opaque[MatcherClass]", _modules_to_check_to_be_specified_next="Opt[Bool]",
+vals.declare_obj("Rule", dict(_rule_matcher_class="Opaque[Class]", _modules_to_check_to_be_specified_next="Opt[Bool]",
                               _configuration="RuleConfiguration"))
 RULE = dict(self="Rule")
 
@@ -40,8 +40,9 @@ REG.contracts["convert_partial_match_to_regex"] = REG.contracts.pop("convert_par
 REG.contracts["convert_partial_match_to_regex"].key = "convert_partial_match_to_regex@node"
 
 # the matcher class stored in a Rule: for module rules it is DefaultRuleMatcher (layer rules: see c_layers.py)
+REG.method_family["Class"] = "MatcherClass"   # the only classes used as VALUES are rule matcher classes (Rule(rule_matcher_class=...))
 REG.add(Contract("MatcherClass.__call__", module="pytestarch.rule_assessment.rule_check.rule_matcher", status="assumed",
-                 kind="method", params=dict(self="Opaque[MatcherClass]", module_requirement="ModuleRequirement",
+                 kind="method", params=dict(self="Opaque[Class]", module_requirement="ModuleRequirement",
                                             behavior_requirement="BehaviorRequirement"), returns="DefaultRuleMatcher",
                  ensures=["result._module_requirement == module_requirement", "result._behavior_requirement == behavior_requirement"],
                  note="Rule() default: rule_matcher_class=DefaultRuleMatcher; the call is RuleMatcher.__init__ (proved)"))
@@ -54,8 +55,8 @@ def _cfg_unchanged(*changed):
     return [f"self._configuration.{f} == old(self)._configuration.{f}" for f in fields if f not in changed]
 
 
-REG.add(Contract("Rule.__init__", module=M_RULE, kind="method", params=dict(self="Rule", rule_matcher_class="Opaque[MatcherClass]"),
-                 returns="None", modifies=["self"],
+REG.add(Contract("Rule.__init__", module=M_RULE, kind="method", params=dict(self="Rule", rule_matcher_class="Opaque[Class]"),
+                 returns="None", modifies=["self"], defaults=dict(rule_matcher_class="DefaultRuleMatcher"),
                  ensures=["self._rule_matcher_class == rule_matcher_class",
                           "is_none(self._modules_to_check_to_be_specified_next)", "is_none(self._configuration.modules_to_check)",
                           "is_none(self._configuration.modules_to_check_against)", "not self._configuration.should",
